@@ -97,13 +97,10 @@ func ruleC35(c *Ctx, r *Report) {
 	// handleHandshakeResponse
 	hName := c.FuncName(hhr)
 	checkCalls := map[*ssa.Call]bool{}
+	checkFns := credentialCheckFns(c) // Manager.Check*Password and functions that merely dispatch to them
 	isCheck := func(cc *ssa.CallCommon) bool {
 		f := cc.StaticCallee()
-		if f == nil || f.Signature.Recv() == nil || !isNamed(f.Signature.Recv().Type(), modPath+"/"+serverRel, "Manager") {
-			return false
-		}
-		n := f.Name()
-		return strings.HasPrefix(n, "Check") && strings.HasSuffix(n, "Password")
+		return f != nil && checkFns[f]
 	}
 	for _, ci := range callsIn(hhr, isCheck) {
 		checkCalls[ci.(*ssa.Call)] = true
@@ -663,7 +660,7 @@ func whoMay(c *Ctx, r *Report, rule string, fn *ssa.Function, label string, allo
 		return
 	}
 	for _, s := range sites {
-		if why, ok := allowed[s.Fn]; ok && s.Fn != nil {
+		if why, ok := allowedVia(c, allowed, s.Fn); ok && s.Fn != nil {
 			r.ok(rule, c.FuncName(s.Fn), "calls:"+label, c.Pos(s.In.Pos()), why)
 		} else {
 			r.viol(rule, c.FuncName(s.Fn), "calls:"+label, c.Pos(s.In.Pos()), label+" is called from a function that is not in the frozen caller table")
@@ -698,7 +695,7 @@ func ruleC22b(c *Ctx, r *Report) {
 		}
 		name := c.FuncName(s.Fn)
 		cons := "call:SetFromSlave(maybe-true)@" + branchLabel(c, s.In)
-		why, ok := allowed[s.Fn]
+		why, ok := allowedVia(c, allowed, s.Fn)
 		if !ok {
 			r.viol(rule, name, cons, c.Pos(s.In.Pos()), "a statement can be flagged for replica execution outside the listed functions")
 			continue
@@ -887,7 +884,7 @@ func ruleC16(c *Ctx, r *Report) {
 		})
 	}
 	for fn, in := range writers {
-		if why, ok := allowedW[fn]; ok {
+		if why, ok := allowedVia(c, allowedW, fn); ok {
 			r.ok("WM-C16", c.FuncName(fn), "write:Stmt.args", c.Pos(in.Pos()), why)
 		} else {
 			r.viol("WM-C16", c.FuncName(fn), "write:Stmt.args", c.Pos(in.Pos()), "bound arguments written outside bind/long-data/reset")
